@@ -52,6 +52,7 @@ PROBES = [
     "narrow_coordinate_dtype",
     "parquet_groups_aligned_with_chunks",
     "patch_column_and_centres_given",
+    "centres_from_another_catalog",
 ]
 REAL_VS_STUB = dict(
     real="yaw readers/DataChunk/split/CatalogWriter/PatchWriter/load_patches, numpy, pandas, astropy.io.fits, h5py, pyarrow, tmpfs",
@@ -107,6 +108,8 @@ def gen_case(prng: Prng, tier: str) -> dict:
         policy=prng.choice(["prng", "prng", "prng", "first", "last", "rr"]),
         sched_seed=prng.below(1 << 40),
     )
+    if mode == "apply" and prng.chance(1, 5):
+        case["patch"]["centers_from_catalog"] = True  # patch_centers=<another catalog>
     if mode == "apply" and source != "random" and prng.chance(1, 6):
         case["patch"]["extra_pid_column"] = True  # patch_name given as well: must be ignored
     if source == "parquet" and chunksize is not None and prng.chance(1, 2):
@@ -205,6 +208,8 @@ def evaluate(case: dict, o: dict) -> tuple[dict | None, str | None, dict]:
         probes["parquet_groups_aligned_with_chunks"] = 1
     if p.get("extra_pid_column"):
         probes["patch_column_and_centres_given"] = 1
+    if p.get("centers_from_catalog"):
+        probes["centres_from_another_catalog"] = 1
     if case["workers"] == 1:
         probes["sequential_path"] = 1
     if d.get("coord_dtype", "f8") != "f8" and case["source"] != "random":
